@@ -727,8 +727,195 @@ fn replay_deep_rerun(doc: &Value) -> Option<String> {
     }
 }
 
+// ---------------------------------------------------------------------------
+// keys that change places
+// ---------------------------------------------------------------------------
+//
+// A program holds several keys in a table and moves them around: swaps two slots, replaces a key and
+// keeps the old one, removes and re-inserts, overwrites a slot with a copy. Moving a Rust value is a
+// plain memory copy - no constructor, no destructor - so anything an implementation remembers *about*
+// a key under the key's address (or under anything else that is not the key's value) goes stale
+// without notice. One thread, 3-4 keys of one variant, 30-60 steps; after every step that signs, the
+// signature must verify under the public key that belongs to the secret key that signed.
+
+#[derive(Clone, Debug)]
+pub enum Step {
+    Sign { slot: usize, msg: Vec<u8>, stream: u64 },
+    Swap { a: usize, b: usize },
+    /// put the spare key `k` into `slot`; the old occupant is kept alive elsewhere
+    Replace { slot: usize, k: usize },
+    Reinsert { from: usize, to: usize },
+    CopyOver { from: usize, to: usize },
+}
+
+#[derive(Clone, Debug)]
+pub struct RotationPlan {
+    pub n: usize,
+    pub key_seeds: Vec<[u8; 32]>,
+    pub slots: usize,
+    pub steps: Vec<Step>,
+}
+
+impl RotationPlan {
+    fn to_json(&self) -> Value {
+        let steps: Vec<Value> = self
+            .steps
+            .iter()
+            .map(|s| match s {
+                Step::Sign { slot, msg, stream } => json!({"op": "sign", "slot": slot, "msg_hex": crate::rng::msg_hex(msg), "stream": stream}),
+                Step::Swap { a, b } => json!({"op": "swap", "a": a, "b": b}),
+                Step::Replace { slot, k } => json!({"op": "replace", "slot": slot, "k": k}),
+                Step::Reinsert { from, to } => json!({"op": "reinsert", "from": from, "to": to}),
+                Step::CopyOver { from, to } => json!({"op": "copy_over", "from": from, "to": to}),
+            })
+            .collect();
+        json!({"kind": "rotation", "n": self.n, "key_seeds_hex": self.key_seeds.iter().map(|s| hex(s)).collect::<Vec<_>>(), "slots": self.slots, "steps": steps})
+    }
+    fn from_json(v: &Value) -> Option<RotationPlan> {
+        let u = |x: &Value, k: &str| x.get(k).and_then(|y| y.as_u64()).map(|y| y as usize);
+        Some(RotationPlan {
+            n: v.get("n")?.as_u64()? as usize,
+            key_seeds: v.get("key_seeds_hex")?.as_array()?.iter().map(|s| crate::rng::unhex(s.as_str()?)?.try_into().ok()).collect::<Option<Vec<[u8; 32]>>>()?,
+            slots: v.get("slots")?.as_u64()? as usize,
+            steps: v
+                .get("steps")?
+                .as_array()?
+                .iter()
+                .map(|x| {
+                    Some(match x.get("op")?.as_str()? {
+                        "sign" => Step::Sign { slot: u(x, "slot")?, msg: crate::rng::msg_unhex(x.get("msg_hex")?.as_str()?)?, stream: x.get("stream")?.as_u64()? },
+                        "swap" => Step::Swap { a: u(x, "a")?, b: u(x, "b")? },
+                        "replace" => Step::Replace { slot: u(x, "slot")?, k: u(x, "k")? },
+                        "reinsert" => Step::Reinsert { from: u(x, "from")?, to: u(x, "to")? },
+                        "copy_over" => Step::CopyOver { from: u(x, "from")?, to: u(x, "to")? },
+                        _ => return None,
+                    })
+                })
+                .collect::<Option<Vec<_>>>()?,
+        })
+    }
+    fn draw(rng: &mut Prng, n: usize, key_seeds: Vec<[u8; 32]>) -> RotationPlan {
+        let slots = 3.min(key_seeds.len());
+        let nsteps = 30 + rng.usize_below(30);
+        let mut steps = Vec::new();
+        for _ in 0..nsteps {
+            let st = match rng.below(10) {
+                0..=4 => Step::Sign { slot: rng.usize_below(slots), msg: rng.bytes(20), stream: rng.next_u64() },
+                5 | 6 => Step::Swap { a: rng.usize_below(slots), b: rng.usize_below(slots) },
+                7 => Step::Replace { slot: rng.usize_below(slots), k: rng.usize_below(key_seeds.len()) },
+                8 => Step::Reinsert { from: rng.usize_below(slots), to: rng.usize_below(slots) },
+                _ => Step::CopyOver { from: rng.usize_below(slots), to: rng.usize_below(slots) },
+            };
+            steps.push(st);
+        }
+        RotationPlan { n, key_seeds, slots, steps }
+    }
+}
+
+/// `keys[i]` = key pair of `plan.key_seeds[i]`; returns the first violated expectation
+fn run_rotation<V: Variant>(plan: &RotationPlan, keys: Vec<(V::Sk, V::Pk)>, st: &mut Stats) -> Option<(String, String)> {
+    let n = V::N;
+    // (secret key, public key, index of the key pair) per slot; the public key travels with its secret key
+    let mut table: Vec<(V::Sk, V::Pk, usize)> = Vec::new();
+    for i in 0..plan.slots {
+        table.push((keys[i].0.clone(), keys[i].1.clone(), i));
+    }
+    let mut kept: Vec<(V::Sk, V::Pk, usize)> = Vec::new();
+    for (i, step) in plan.steps.iter().enumerate() {
+        match step {
+            Step::Sign { slot, msg, stream } => {
+                st.evaluations += 1;
+                let (r, _) = world::sign_sim::<V>(&table[*slot].0, msg, &world::SignPlan::uniform(*stream), None);
+                match r {
+                    Ok(sig) => match crate::guard::guarded(|| V::verify(msg, &sig, &table[*slot].1)) {
+                        Ok(true) => st.inc("verified"),
+                        Ok(false) => return Some((format!("honest signature{} rejected by verify", n), format!("step {}: slot {} holds key {} after the keys of the table changed places", i, slot, table[*slot].2))),
+                        Err(u) => return Some((format!("verify{} {} on an honest signature", n, u.signature()), format!("step {}", i))),
+                    },
+                    Err(Unwind::NoProgress { .. }) => return Some((format!("sign{} makes no progress within its step bound", n), format!("step {}", i))),
+                    Err(Unwind::Code { location, message }) => return Some((format!("sign{} unwinds at {}", n, location), format!("step {}: {}", i, message))),
+                }
+            }
+            Step::Swap { a, b } => {
+                st.inc("rotation.swap");
+                table.swap(*a, *b);
+            }
+            Step::Replace { slot, k } => {
+                st.inc("rotation.replace");
+                let fresh = (keys[*k].0.clone(), keys[*k].1.clone(), *k);
+                let old = std::mem::replace(&mut table[*slot], fresh);
+                kept.push(old);
+            }
+            Step::Reinsert { from, to } => {
+                st.inc("rotation.reinsert");
+                let e = table.remove(*from);
+                let to = (*to).min(table.len());
+                table.insert(to, e);
+            }
+            Step::CopyOver { from, to } => {
+                st.inc("rotation.copy_over");
+                if from != to {
+                    let c = (table[*from].0.clone(), table[*from].1.clone(), table[*from].2);
+                    table[*to] = c;
+                }
+            }
+        }
+    }
+    drop(kept);
+    None
+}
+
+fn rotation_run(seed: u64, run: u64, p512: &KeyPool<V512>, p1024: &KeyPool<V1024>) -> RunOutcome {
+    let mut rng = Prng::new(report::run_seed(seed, "C01rotation", run));
+    let mut out = RunOutcome::default();
+    out.stats.inc("runs");
+    out.stats.inc("runs.keys_changing_places");
+    fn go<V: Variant>(rng: &mut Prng, pool: &KeyPool<V>, out: &mut RunOutcome, run: u64) {
+        let nk = 4.min(pool.keys.len());
+        let first = rng.usize_below(pool.keys.len());
+        let idx: Vec<usize> = (0..nk).map(|i| (first + i) % pool.keys.len()).collect();
+        let mut keys = Vec::new();
+        for &i in &idx {
+            match pool.keys[i].load() {
+                Ok(kp) => keys.push(kp),
+                Err(_) => {
+                    out.stats.inc("harness.pool_key_not_loadable");
+                    return;
+                }
+            }
+        }
+        let plan = RotationPlan::draw(rng, V::N, idx.iter().map(|&i| pool.keys[i].seed).collect());
+        if let Some((class, detail)) = run_rotation::<V>(&plan, keys, &mut out.stats) {
+            out.violations.push(Violation { property: PROP, class, detail, replay: plan.to_json(), run });
+        }
+    }
+    if rng.chance(1, 4) {
+        go::<V1024>(&mut rng, p1024, &mut out, run);
+    } else {
+        go::<V512>(&mut rng, p512, &mut out, run);
+    }
+    out
+}
+
+fn replay_rotation(doc: &Value) -> Option<String> {
+    let plan = RotationPlan::from_json(doc)?;
+    fn go<V: Variant>(plan: &RotationPlan) -> Option<String> {
+        let mut keys = Vec::new();
+        for s in &plan.key_seeds {
+            keys.push(world::keygen_sim::<V>(*s, None, None).0.ok()?);
+        }
+        let mut st = Stats::default();
+        run_rotation::<V>(plan, keys, &mut st).map(|c| c.0)
+    }
+    if plan.n == 512 {
+        go::<V512>(&plan)
+    } else {
+        go::<V1024>(&plan)
+    }
+}
+
 /// "<n> <seed hex> <root>" lines of corpus/C01/selected-seeds.txt
-pub fn selected_seeds_corpus() -> Vec<(usize, [u8; 32], i64)> {
+pub fn selected_seeds_corpus() -> Vec<(usize, [u8; 32], String)> {
     let p = report::verif_root().join("corpus").join(PROP).join("selected-seeds.txt");
     let mut v = Vec::new();
     if let Ok(s) = std::fs::read_to_string(p) {
@@ -739,9 +926,11 @@ pub fn selected_seeds_corpus() -> Vec<(usize, [u8; 32], i64)> {
             }
             let mut it = l.split_whitespace();
             if let (Some(a), Some(b), Some(c)) = (it.next(), it.next(), it.next()) {
-                if let (Ok(n), Some(seed), Ok(root)) = (a.parse::<usize>(), crate::rng::unhex(b).and_then(|x| <[u8; 32]>::try_from(x).ok()), c.parse::<i64>()) {
+                if let (Ok(n), Some(seed)) = (a.parse::<usize>(), crate::rng::unhex(b).and_then(|x| <[u8; 32]>::try_from(x).ok())) {
                     if n == 512 || n == 1024 {
-                        v.push((n, seed, root));
+                        // the rest of the line says why the seed was selected
+                        let why = std::iter::once(c).chain(it).collect::<Vec<_>>().join(" ");
+                        v.push((n, seed, why));
                     }
                 }
             }
@@ -753,7 +942,7 @@ pub fn selected_seeds_corpus() -> Vec<(usize, [u8; 32], i64)> {
 /// A key whose seed was selected with the reference model of key generation's candidate stream
 /// (`reference::keygen`): the first candidate's f vanishes at an end root of X^n + 1 mod q, so key
 /// generation has to discard it. The key is generated here, from the seed, and signs three messages.
-fn selected_seed_run(seed: u64, idx: u64, n: usize, key_seed: [u8; 32], root: i64) -> RunOutcome {
+fn selected_seed_run(seed: u64, idx: u64, n: usize, key_seed: [u8; 32], why: &str) -> RunOutcome {
     let mut rng = Prng::new(report::run_seed(seed, "C01selected", idx));
     let ops: Vec<Op> = (0..3).map(|_| Op::Sign { key: 0, msg: world::message(&mut rng), stream: rng.next_u64(), mode: Some(Mode::Uniform), norm_rejects: 0, compress_fails: 0 }).collect();
     let plan = WorldPlan { n, key_seeds: vec![key_seed], sched_seed: rng.next_u64(), switch_exp: None, boundary: 0, threads: vec![ops], align: None };
@@ -762,14 +951,14 @@ fn selected_seed_run(seed: u64, idx: u64, n: usize, key_seed: [u8; 32], root: i6
         Some(v) => {
             out.stats = v.stats;
             if let Some((class, detail)) = v.class {
-                out.violations.push(Violation { property: PROP, class, detail: format!("{} (key seed selected: first candidate f vanishes at root {} of X^{}+1)", detail, root, n), replay: plan.to_json(), run: (1 << 41) + 500 + idx });
+                out.violations.push(Violation { property: PROP, class, detail: format!("{} (key seed selected with the candidate model: {})", detail, why), replay: plan.to_json(), run: (1 << 41) + 500 + idx });
             }
         }
         None => {
             out.violations.push(Violation {
                 property: PROP,
                 class: format!("keygen{} fails on a seed", n),
-                detail: format!("key seed {} (selected: first candidate f vanishes at root {})", hex(&key_seed), root),
+                detail: format!("key seed {} (selected with the candidate model: {})", hex(&key_seed), why),
                 replay: plan.to_json(),
                 run: (1 << 41) + 500 + idx,
             });
@@ -787,6 +976,9 @@ pub fn replay(doc: &Value) -> Option<String> {
     if doc.get("kind").and_then(|k| k.as_str()) == Some("mixed") {
         return replay_mixed(doc);
     }
+    if doc.get("kind").and_then(|k| k.as_str()) == Some("rotation") {
+        return replay_rotation(doc);
+    }
     let plan = WorldPlan::from_json(doc)?;
     run_plan_dyn(&plan)?.class.map(|c| c.0)
 }
@@ -797,6 +989,7 @@ pub struct Ctx {
     pub runs512: u64,
     pub runs1024: u64,
     pub runs_mixed: u64,
+    pub runs_rotation: u64,
 }
 
 pub fn context(tier: Tier, seed: u64) -> Result<Ctx, String> {
@@ -814,7 +1007,8 @@ pub fn context(tier: Tier, seed: u64) -> Result<Ctx, String> {
         }
     }
     let runs_mixed = (runs512 + runs1024) / 8;
-    Ok(Ctx { p512, p1024, runs512, runs1024, runs_mixed })
+    let runs_rotation = (runs512 + runs1024) / 16;
+    Ok(Ctx { p512, p1024, runs512, runs1024, runs_mixed, runs_rotation })
 }
 
 fn dispatch(ctx: &Ctx, seed: u64, run: u64) -> RunOutcome {
@@ -823,14 +1017,16 @@ fn dispatch(ctx: &Ctx, seed: u64, run: u64) -> RunOutcome {
         one_run::<V1024>(seed, run, &ctx.p1024)
     } else if run < ctx.runs1024 + ctx.runs512 {
         one_run::<V512>(seed, run, &ctx.p512)
-    } else {
+    } else if run < ctx.runs1024 + ctx.runs512 + ctx.runs_mixed {
         mixed_run(seed, run, &ctx.p512, &ctx.p1024)
+    } else {
+        rotation_run(seed, run, &ctx.p512, &ctx.p1024)
     }
 }
 
 pub fn runner(tier: Tier, seed: u64) -> Option<(u64, Box<dyn Fn(u64) -> RunOutcome + Sync>)> {
     let ctx = context(tier, seed).ok()?;
-    let n = ctx.runs512 + ctx.runs1024 + ctx.runs_mixed;
+    let n = ctx.runs512 + ctx.runs1024 + ctx.runs_mixed + ctx.runs_rotation;
     Some((n, Box::new(move |run| dispatch(&ctx, seed, run))))
 }
 
@@ -849,7 +1045,7 @@ pub fn check(tier: Tier, seed: u64) -> i32 {
             return 2;
         }
     };
-    let out = report::parallel_runs(ctx.runs512 + ctx.runs1024 + ctx.runs_mixed, w, |run| dispatch(&ctx, seed, run));
+    let out = report::parallel_runs(ctx.runs512 + ctx.runs1024 + ctx.runs_mixed + ctx.runs_rotation, w, |run| dispatch(&ctx, seed, run));
     rep.absorb(out);
     // deep batch (function-entry yield points), executed by the instrumented build if the check script produced one
     match std::env::var("VERIF_DEEP_BIN").ok().filter(|p| std::path::Path::new(p).exists()) {
@@ -876,20 +1072,20 @@ pub fn check(tier: Tier, seed: u64) -> i32 {
     // (corpus/C01/selected-seeds.txt, found by an offline scan of 400000 seeds per variant with the same
     // model) and, in the thorough tier, fresh ones selected at run time
     {
-        let mut jobs: Vec<(usize, [u8; 32], i64)> = selected_seeds_corpus();
+        let mut jobs: Vec<(usize, [u8; 32], String)> = selected_seeds_corpus();
         rep.stats.add("selected_key_seeds.pinned", jobs.len() as u64);
         if tier == Tier::Thorough {
             let scan = 60_000u64;
             for n in [512usize, 1024] {
                 for (s, r) in world::mine_keygen_seeds(seed, n, scan, 64, w) {
-                    jobs.push((n, s, r));
+                    jobs.push((n, s, format!("root {} (selected at run time)", r)));
                 }
             }
             rep.stats.add("key_seeds_scanned_with_the_candidate_model", 2 * scan);
         }
         let out = report::parallel_runs(jobs.len() as u64, w, |i| {
-            let (n, s, r) = jobs[i as usize];
-            selected_seed_run(seed, i, n, s, r)
+            let (n, s, r) = &jobs[i as usize];
+            selected_seed_run(seed, i, *n, *s, r)
         });
         rep.absorb(out);
     }
@@ -897,7 +1093,7 @@ pub fn check(tier: Tier, seed: u64) -> i32 {
         eprintln!("HARNESS-ERROR: pool keys could not be decoded by SecretKey/PublicKey::from_bytes on this tree (see C05)");
         return 2;
     }
-    rep.rule = "a case is one sign (or verifier-thread verify) operation inside a seeded multi-thread plan: 1-8 signer threads and 0-2 verifier threads share one key under the baton scheduler (pre-emption probability 2^-k per entropy draw, k in 3..20 chosen per run from a budget of 10..6000 expected switches, plus operation boundaries), each sign with its own simulator entropy stream in mode E1/E2/E3/E4 and optional buggify-forced retries; a deep batch run by a build in which every function entry of the code under test is a yield point (falcon-rust compiled with -Zinstrument-mcount) puts 2-6 signer/verifier threads on 24+ distinct keys so that the scheduler can pre-empt inside verify and the decoders; a few dozen keys come from seeds selected (offline among 400000 per variant and pinned in corpus/C01/selected-seeds.txt; in the thorough tier also among 60000 fresh ones per variant at run time) with a reference model of key generation's candidate stream because the first candidate's f vanishes at an end root of X^n+1 mod q and must be discarded; a further eighth of the runs are mixed-variant runs in which the same threads alternate between a Falcon-512 and a Falcon-1024 key (sign, then verify on the same thread); non-trivial = the call was pre-empted mid-call, or took a natural or forced retry, or had an entropy fault land; distinct = distinct (schedule trace, thread, resulting signature)".into();
+    rep.rule = "a case is one sign (or verifier-thread verify) operation inside a seeded multi-thread plan: 1-8 signer threads and 0-2 verifier threads share one key under the baton scheduler (pre-emption probability 2^-k per entropy draw, k in 3..20 chosen per run from a budget of 10..6000 expected switches, plus operation boundaries), each sign with its own simulator entropy stream in mode E1/E2/E3/E4 and optional buggify-forced retries; a deep batch run by a build in which every function entry of the code under test is a yield point (falcon-rust compiled with -Zinstrument-mcount) puts 2-6 signer/verifier threads on 24+ distinct keys so that the scheduler can pre-empt inside verify and the decoders; a few dozen keys come from seeds selected (offline among 400000 per variant and pinned in corpus/C01/selected-seeds.txt; in the thorough tier also among 60000 fresh ones per variant at run time) with a reference model of key generation's candidate stream because the first candidate's f vanishes at an end root of X^n+1 mod q and must be discarded; a sixteenth of the runs are single-thread runs in which 3-4 keys held in a table change places (swap, replace-and-keep, remove-and-reinsert, overwrite with a copy) between sign calls; a further eighth of the runs are mixed-variant runs in which the same threads alternate between a Falcon-512 and a Falcon-1024 key (sign, then verify on the same thread); non-trivial = the call was pre-empted mid-call, or took a natural or forced retry, or had an entropy fault land; distinct = distinct (schedule trace, thread, resulting signature)".into();
     rep.assumptions = vec![
         "all of sign's randomness flows through the hooked generator (hook H1); a generator created elsewhere is only visible to C08(b) and to the interleaved==sequential comparison".into(),
         "keys come from a per-invocation pool generated by the current tree".into(),
